@@ -8,7 +8,7 @@
 #       - the extracted model's `clean` (correspondence of the model with the code).
 #     The run log is compared with a Python-side expectation: commands that must not run / must run / run at most once.
 # PARTIAL by design: the world invariant over the real file system is sampled here; the proofs cover the rule level.
-import os, json, shutil, random, stat, copy, sqlite3
+import os, json, shutil, random, stat, copy, sqlite3, subprocess, signal, time
 import vlib
 from vlib import hx
 
@@ -113,6 +113,8 @@ class Project:
     # ---- text of the build file
     def script(self, name):
         d = self.cmds[name]
+        if "script" in d:
+            return d["script"]            # the temporary commands of an aborted-build episode
         parts = []
         # a directory written by a directory-producing command is read entry by entry (sorted glob)
         reads = "".join(("cat %s/* 2>/dev/null; " % i.rstrip("/")) if self.produced_by_tool(i) == "dirshell" else
@@ -861,9 +863,85 @@ class History:
                 self.P.cmds.get(l[4:].strip(), {}).get("tool") in ("mkdir", "symlink")]
         return rc, out, err, ran
 
-    def build(self):
+    # ---- a build that is aborted in the middle
+    def episode(self):
+        """edit a source; break the description (dependency cycle | failing command | slow command + SIGINT) so that the
+        build of the default target aborts after a command reading that source has re-run; repair the description; edit
+        the SAME source again.  The caller then builds the default target in a new process: the usual oracle applies."""
+        rng, P = self.rng, self.P
+        reach = P.reachable_cmds(P.targets[""])
+        cands = []
+        for c in reach:
+            d = P.cmds[c]
+            if d["tool"] != "shell":
+                continue
+            outs = [o for o in d["outputs"] if not is_virtual(o)]
+            srcs = [n for n in d["inputs"] + P.extras(c) if n in self.file_sources()]
+            if outs and srcs:
+                cands.append((c, srcs, outs))
+        if not cands:
+            return False
+        c, srcs, outs = rng.choice(cands)
+        s, o = rng.choice(srcs), rng.choice(outs)
+        kind = rng.choice(["cycle", "cycle", "failing_command", "sigint"])
+        self.write_source(s, "before-abort-%s-%d;" % (s, P.fresh()))
+        saved_cmds, saved_target = copy.deepcopy(P.cmds), list(P.targets[""])
+        if kind == "cycle":
+            P.cmds["CYA"] = dict(tool="shell", inputs=["cyb", o], outputs=["cya"], tag="CYA", contents="")
+            P.cmds["CYB"] = dict(tool="shell", inputs=["cya"], outputs=["cyb"], tag="CYB", contents="")
+            P.targets[""] = saved_target + ["cya"]
+        elif kind == "failing_command":
+            P.cmds["FAIL"] = dict(tool="shell", inputs=[o], outputs=["failout"], tag="", contents="", script="echo FAIL >> runlog; exit 1")
+            P.targets[""] = saved_target + ["failout"]
+        else:
+            P.cmds["SLOW"] = dict(tool="shell", inputs=[o], outputs=["slowout"], tag="", contents="", script="echo SLOW >> runlog; sleep 20")
+            P.targets[""] = saved_target + ["slowout"]
+        serial = rng.random() < 0.5
+        rl = os.path.join(self.S, "runlog")
+        if os.path.exists(rl):
+            os.unlink(rl)
+        open(os.path.join(self.S, "build.llbuild"), "w").write(P.yaml())
+        cmd = [self.llb, "buildsystem", "build"] + (["--serial"] if serial else []) + \
+              ["--chdir", self.S, "-f", os.path.join(self.S, "build.llbuild"), "--db", os.path.join(self.S, "build.db")]
+        pr = subprocess.Popen(cmd, stdout=subprocess.PIPE, stderr=subprocess.PIPE)
+        if kind == "sigint":
+            t0 = time.time()
+            while time.time() - t0 < 15 and pr.poll() is None:
+                if os.path.exists(rl) and "SLOW" in open(rl).read().split():
+                    break
+                time.sleep(0.01)
+            if pr.poll() is None:
+                pr.send_signal(signal.SIGINT)
+        try:
+            out, err = pr.communicate(timeout=60)
+        except subprocess.TimeoutExpired:
+            pr.kill()
+            out, err = pr.communicate()
+        rc = pr.returncode
+        ran = [x for x in (open(rl).read().split() if os.path.exists(rl) else []) if x not in ("FAIL", "SLOW")]
+        self.ever_ran |= set(ran)
+        self.nbuilds += 1
+        self.log.append(dict(op="aborted_build", kind=kind, source=s, command=c, serial=serial, rc=rc, ran=sorted(ran),
+                             reran_before_abort=c in ran, stderr=err.decode("utf-8", "replace")[-200:]))
+        self.chk.cov["aborted_builds"] = self.chk.cov.get("aborted_builds", 0) + 1
+        if rc != 0 and c in ran:
+            self.chk.cov["aborted_after_rerun"] = self.chk.cov.get("aborted_after_rerun", 0) + 1
+        by = self.chk.cov.setdefault("aborted_builds_by_kind", {})
+        by[kind] = by.get(kind, 0) + 1
+        # nothing is expected of the run set of the next build
+        self.uncertain = True
+        self.uptodate = {}
+        # repair the description, edit the same source again
+        P.cmds, P.targets[""] = saved_cmds, saved_target
+        for leftover in ("cya", "cyb", "failout", "slowout"):
+            self.remove(leftover)
+        self.write_source(s, "after-abort-%s-%d;" % (s, P.fresh()))
+        self.pending.append("aborted_" + kind)
+        return True
+
+    def build(self, force_target=None):
         rng, P, chk = self.rng, self.P, self.chk
-        tname = rng.choice(["", "", "t2", "one"])
+        tname = rng.choice(["", "", "t2", "one"]) if force_target is None else force_target
         if tname == "one":
             produced = [n for n in P.nodes() if P.producers(n)]
             P.targets["one"] = [rng.choice(produced)]
@@ -1059,7 +1137,11 @@ class History:
         self.rp = None
         self.build()
         nsteps = self.rng.randint(4, 6)
+        at = self.rng.randrange(nsteps) if self.rng.random() < 0.5 else -1
         for i in range(nsteps):
+            if i == at and self.episode():
+                self.build(force_target="")      # a new process over the same database
+                continue
             for j in range(self.rng.choice([1, 1, 1, 2])):
                 self.mutate()
             self.build()
@@ -1141,7 +1223,9 @@ def finish(chk):
                            "delete / add / overwrite an entry INSIDE a produced directory (explicit mtimes), "
                            "nothing, change args, add command, add output, remove command, rewire input, source->produced, produced->source, change link, "
                            "virtual input gains a producer with a file output, virtual node loses its producer, edit a discovered-only source, "
-                           "replace a source by another inode with the same size and mtime}; "
+                           "replace a source by another inode with the same size and mtime}; in half of the histories one ABORTED build in the middle "
+                           "(edit a source; break the description by a dependency cycle | a failing command | a slow command interrupted by SIGINT, so that the build aborts "
+                           "after a reader of that source re-ran; repair; edit the SAME source again; build the default target in a new process); "
                            "each build picks the default target / a second target / a single node and --serial or parallel, over one database in new processes. "
                            "After every successful build: reachable outputs (entries of produced directories included) == actual clean build == model clean; run log vs "
                            "must-run / must-not-run sets; model validity verdicts on the stored values; model signature tokens <-> stored signatures one-to-one. "
@@ -1157,7 +1241,7 @@ def run(chk):
     vlib.llbuild_bin()
     vlib.model_bin("bsys")
     chk.proof_gate()
-    n = chk.n(40, 400)
+    n = chk.n(34, 400)
     seeds = [chk.rng.getrandbits(40) for _ in range(n)]
     # corpus: seeds of histories that exposed something during development stay in front
     cdir = os.path.join(vlib.ROOT, "corpus", "C08")
